@@ -86,7 +86,11 @@ func (its *BaseDatatype) executeRemoteBase(op iface.Operation) {
 
 // Replay replays an already executed operation.
 func (its *BaseDatatype) Replay(op iface.Operation) errors.OrdaError {
-	if its.opID.CUID == op.GetID().CUID {
+	// An operation of this client is replayed as a local one only when it was issued after the
+	// rollback point. Older ones can only have come from the server (a subscription answered with the
+	// log that holds what this client pushed earlier): they keep their identifiers, like any remote
+	// operation, or everything that refers to them would miss its target.
+	if its.opID.CUID == op.GetID().CUID && op.GetID().GetSeq() > its.opID.GetSeq() {
 		_, err := its.executeLocalBase(op)
 		if err != nil { // TODO: if an operation fails to be executed, opID should be rollbacked.
 			return err
